@@ -89,7 +89,7 @@ class Contract:
             if 'fn' in k.__dict__:
                 raw = k.__dict__['fn']
                 break
-        if isinstance(raw, (staticmethod, classmethod)):
+        if isinstance(raw, (staticmethod, classmethod, types.MethodType)):
             raw = raw.__func__
         self.fn = raw                     # instance attribute: the plain function object, not a bound method
         self.name = f'{raw.__module__}.{raw.__qualname__}' if raw is not None else type(self).__name__
@@ -178,6 +178,8 @@ def _apply(it, c, fn, args, kwargs, node):
     cx = Ctx(it, run.heap)
     site = f'{it.where()}#call[{fn.__qualname__}@L{getattr(node, "lineno", 0)}]'
     it.called_contracts.add(c.name)
+    if hasattr(c, 'apply_at'):
+        return c.apply_at(cx, p, node, site)
     pre = c.pre(cx, **p)
     if isinstance(pre, dict):
         for lab, t in pre.items():
